@@ -8,6 +8,7 @@ import (
 	"io"
 	"math/rand"
 	"net"
+	"os"
 	"strings"
 	"sync"
 	"sync/atomic"
@@ -53,6 +54,7 @@ type muxRig struct {
 	closed   bool
 	closedCh chan struct{}
 	// a ClientConnectionClose plugin that can be made to block (teardown in progress)
+	wdl         int64 // write deadline of the conn (unix nanoseconds, 0 = none)
 	plugHold    bool
 	plugArrived chan struct{}
 	plugRelease chan struct{}
@@ -175,10 +177,26 @@ func (c rigConn) Write(p []byte) (int, error) {
 	}
 	g := r.gate(r.wrGate, id)
 	g.arrived <- struct{}{}
-	if !<-g.release {
-		return 0, errRigWrite
+	// parked inside Write: like a real conn, the write fails when the conn's write deadline passes
+	for {
+		var timer <-chan time.Time
+		if dl := atomic.LoadInt64(&r.wdl); dl != 0 {
+			d := time.Until(time.Unix(0, dl))
+			if d <= 0 {
+				return 0, &net.OpError{Op: "write", Net: "verif", Err: os.ErrDeadlineExceeded}
+			}
+			timer = time.After(d)
+		}
+		select {
+		case ok := <-g.release:
+			if !ok {
+				return 0, errRigWrite
+			}
+			return len(p), nil
+		case <-timer:
+		case <-time.After(2 * time.Millisecond): // the deadline may have been (re)set meanwhile
+		}
 	}
-	return len(p), nil
 }
 
 func (c rigConn) Close() error {
@@ -193,9 +211,16 @@ func (c rigConn) Close() error {
 }
 func (c rigConn) LocalAddr() net.Addr                { return rigAddr{} }
 func (c rigConn) RemoteAddr() net.Addr               { return rigAddr{} }
-func (c rigConn) SetDeadline(t time.Time) error      { return nil }
+func (c rigConn) SetDeadline(t time.Time) error      { return c.SetWriteDeadline(t) }
 func (c rigConn) SetReadDeadline(t time.Time) error  { return nil }
-func (c rigConn) SetWriteDeadline(t time.Time) error { return nil }
+func (c rigConn) SetWriteDeadline(t time.Time) error {
+	if t.IsZero() {
+		atomic.StoreInt64(&c.r.wdl, 0)
+	} else {
+		atomic.StoreInt64(&c.r.wdl, t.UnixNano())
+	}
+	return nil
+}
 
 func init() {
 	share.RegisterCodec(rigSerializeType, rigCodec{})
@@ -235,6 +260,7 @@ type muxCall struct {
 	cancel context.CancelFunc
 	retCh  chan error
 	ret    *error
+	deadline time.Time
 	phase  int // 0 fresh, 1 at-encode, 2 at-write, 3 written, 4 finished
 	seq    int
 }
@@ -292,7 +318,7 @@ func classifyMuxErr(err error, reply *rigReply) string {
 			return "none"
 		}
 		return fmt.Sprintf("reply:%d", reply.Tag)
-	case err == context.Canceled:
+	case err == context.Canceled, err == context.DeadlineExceeded:
 		return "ctx"
 	case err == client.ErrShutdown:
 		return "shutdown"
@@ -392,9 +418,13 @@ func runMuxSchedule(kinds string, evs []string) (string, error) {
 		case 'O':
 			mc.done = make(chan *client.Call, 8)
 			mc.goCall = cl.Go(context.Background(), "Svc", "M", args, nil, mc.done)
-		case 'B':
+		case 'B', 'D':
 			mc.reply = &rigReply{Tag: -1}
 			ctx, cancel := context.WithCancel(context.Background())
+			if kinds[i] == 'D' { // a caller with a deadline: "cancel" = letting the deadline pass
+				mc.deadline = time.Now().Add(150 * time.Millisecond)
+				ctx, cancel = context.WithDeadline(context.Background(), mc.deadline)
+			}
 			mc.cancel = cancel
 			mc.retCh = make(chan error, 1)
 			go func() { mc.retCh <- cl.Call(ctx, "Svc", "M", args, mc.reply) }()
@@ -408,7 +438,7 @@ func runMuxSchedule(kinds string, evs []string) (string, error) {
 	terminated := false
 	nextSeq := 0
 	awaitRet := func(mc *muxCall) {
-		if mc.kind != 'B' || mc.ret != nil {
+		if (mc.kind != 'B' && mc.kind != 'D') || mc.ret != nil {
 			return
 		}
 		select {
@@ -562,7 +592,7 @@ func runMuxSchedule(kinds string, evs []string) (string, error) {
 			}
 			terminated = true
 			for w := 0; w < 200; w++ {
-				if mc.kind == 'B' {
+				if mc.kind == 'B' || mc.kind == 'D' {
 					awaitRet(mc)
 					if mc.ret != nil {
 						break
@@ -634,7 +664,7 @@ func runMuxSchedule(kinds string, evs []string) (string, error) {
 			terminated = true
 			// give the call time to complete; whether it did is the observation
 			for w := 0; w < 200; w++ {
-				if mc.kind == 'B' {
+				if mc.kind == 'B' || mc.kind == 'D' {
 					awaitRet(mc)
 					if mc.ret != nil {
 						break
@@ -674,7 +704,7 @@ func runMuxSchedule(kinds string, evs []string) (string, error) {
 					for {
 						completed := false
 						switch mc.kind {
-						case 'B':
+						case 'B', 'D':
 							if mc.ret == nil {
 								select {
 								case e := <-mc.retCh:
@@ -705,6 +735,14 @@ func runMuxSchedule(kinds string, evs []string) (string, error) {
 				r.gate(r.encGate, id).release <- false
 				mc.phase = 4
 				time.Sleep(300 * time.Microsecond)
+			case 'y': // leave the call parked INSIDE its Write (no step of the model)
+				if mc.phase == 1 {
+					r.gate(r.encGate, id).release <- true
+					if err := waitArr(r.gate(r.wrGate, id), "write"); err != nil {
+						return "", err
+					}
+					mc.phase = 2
+				}
 			case 'x', 'w':
 				if mc.phase == 1 {
 					r.gate(r.encGate, id).release <- true
@@ -724,7 +762,7 @@ func runMuxSchedule(kinds string, evs []string) (string, error) {
 				}
 				time.Sleep(300 * time.Microsecond)
 			case 'c':
-				if mc.kind != 'B' || mc.ret != nil {
+				if (mc.kind != 'B' && mc.kind != 'D') || mc.ret != nil {
 					continue
 				}
 				// has the call already returned?
@@ -734,7 +772,13 @@ func runMuxSchedule(kinds string, evs []string) (string, error) {
 					continue
 				default:
 				}
-				mc.cancel()
+				if mc.kind == 'D' {
+					if d := time.Until(mc.deadline); d > 0 {
+						time.Sleep(d + 2*time.Millisecond)
+					}
+				} else {
+					mc.cancel()
+				}
 				select {
 				case e := <-mc.retCh:
 					mc.ret = &e
@@ -746,7 +790,7 @@ func runMuxSchedule(kinds string, evs []string) (string, error) {
 		}
 		// completions may have released blocking callers
 		for _, mc := range calls {
-			if mc.kind == 'B' && mc.ret == nil {
+			if (mc.kind == 'B' || mc.kind == 'D') && mc.ret == nil {
 				select {
 				case e := <-mc.retCh:
 					mc.ret = &e
@@ -759,7 +803,7 @@ func runMuxSchedule(kinds string, evs []string) (string, error) {
 	var per []string
 	for _, mc := range calls {
 		switch mc.kind {
-		case 'B':
+		case 'B', 'D':
 			awaitRet(mc)
 			if mc.ret == nil {
 				per = append(per, "ret=-")
@@ -847,6 +891,9 @@ func genMuxSchedule(r *rand.Rand, focus string) (string, []string) {
 	for i := range kinds {
 		kinds[i] = "GGNNBBO"[r.Intn(7)]
 	}
+	if r.Intn(12) == 0 { // a caller with a context deadline (each costs up to 150 ms)
+		kinds[r.Intn(n)] = 'D'
+	}
 	if focus == "c06" { // a victim that is the first call on the connection, and aggressors
 		kinds[0] = "GB"[r.Intn(2)]
 	}
@@ -873,6 +920,12 @@ func genMuxSchedule(r *rand.Rand, focus string) (string, []string) {
 				}
 			case 1:
 				y := r.Intn(10)
+				if r.Intn(6) == 0 {
+					evs = append(evs, fmt.Sprintf("y%d", c)) // park it inside Write first
+					if y == 0 {
+						y = 2 // it has been encoded already: no encode failure any more
+					}
+				}
 				switch {
 				case y == 0:
 					evs = append(evs, fmt.Sprintf("e%d", c))
@@ -920,7 +973,7 @@ func genMuxSchedule(r *rand.Rand, focus string) (string, []string) {
 		case x < 17: // cancel a blocking caller
 			var bs []int
 			for c := range kinds {
-				if kinds[c] == 'B' {
+				if kinds[c] == 'B' || kinds[c] == 'D' {
 					bs = append(bs, c)
 				}
 			}
